@@ -157,6 +157,14 @@ def lex_comment(
     then returns what they return.
     """
 
+    if (
+        preserve["state"] == Preserve.COMMENT
+        and preserve["end"] in c_info["single_comments"].values()
+    ):
+        # Inside a single-character-delimited comment (e.g. "# ... \n"),
+        # the characters of the multi-character delimiters mean nothing.
+        return lex_preserve(char, lexeme, preserve)
+
     if char in c_info["multi_chars"]:
         return lex_multichar_comments(
             char,
